@@ -23,6 +23,7 @@ import (
 	"github.com/corazawaf/coraza/v3/experimental/plugins/macro"
 	"github.com/corazawaf/coraza/v3/experimental/plugins/plugintypes"
 	"github.com/corazawaf/coraza/v3/internal/corazawaf"
+	"github.com/corazawaf/coraza/v3/internal/memoize"
 	"github.com/corazawaf/coraza/v3/internal/operators"
 	"github.com/corazawaf/coraza/v3/internal/seclang"
 	"github.com/corazawaf/coraza/v3/verifharness/vh"
@@ -159,6 +160,26 @@ type runner struct {
 	nontriv  int
 	oracleN  int
 	pf       bool // current SecRxPreFilter setting for @rx cases
+	memo     *memoize.Memoizer
+	memoID   uint64
+	memoUses int
+}
+
+// mz returns the memoizer of the current simulated WAF: operators are built through the real
+// process-wide memoize cache (as ParseOperator does), so a compiled artefact cached under a key
+// that does not determine it (a data-set name, a file name) is handed to the next operator with
+// different content. Every 400 constructions a new "WAF" starts and the old one is released.
+func (r *runner) mz() *memoize.Memoizer {
+	if r.memo == nil || r.memoUses >= 400 {
+		if r.memo != nil {
+			memoize.Release(r.memoID)
+		}
+		r.memoID++
+		r.memo = memoize.NewMemoizer(1<<40 + r.memoID)
+		r.memoUses = 0
+	}
+	r.memoUses++
+	return r.memo
 }
 
 func (r *runner) fail(key, what string, c any) {
@@ -194,7 +215,7 @@ func (r *runner) evalSafe(op plugintypes.Operator, tx plugintypes.TransactionSta
 
 func (r *runner) runMop(opName, arg string, txv [][2]string, value string) {
 	cj := &caseJSON{Kind: "mop", Op: opName, ArgHex: hx(arg), Tx: txv, ValueHex: hx(value)}
-	op, err := operators.Get(opName, plugintypes.OperatorOptions{Arguments: arg})
+	op, err := operators.Get(opName, plugintypes.OperatorOptions{Arguments: arg, Memoizer: r.mz()})
 	if err != nil {
 		cj.Res = "error"
 	} else {
@@ -231,7 +252,7 @@ func (r *runner) pmCommon(kind string, op plugintypes.Operator, cj *caseJSON, va
 
 func (r *runner) runPm(arg, value string, capture bool) {
 	cj := &caseJSON{Kind: "pm", ArgHex: hx(arg), ValueHex: hx(value), Capture: capture}
-	op, err := operators.Get("pm", plugintypes.OperatorOptions{Arguments: arg})
+	op, err := operators.Get("pm", plugintypes.OperatorOptions{Arguments: arg, Memoizer: r.mz()})
 	if err != nil {
 		r.fail("c15-pm-ctor", "newPM returned an error: "+err.Error(), cj)
 		return
@@ -256,7 +277,7 @@ func (r *runner) runPm(arg, value string, capture bool) {
 func (r *runner) runPmf(data, value string, capture bool) {
 	cj := &caseJSON{Kind: "pmf", ArgHex: hx(data), ValueHex: hx(value), Capture: capture}
 	fsys := fstest.MapFS{"d/phrases.data": &fstest.MapFile{Data: []byte(data)}}
-	op, err := operators.Get("pmFromFile", plugintypes.OperatorOptions{Arguments: "phrases.data", Path: []string{"d"}, Root: fsys})
+	op, err := operators.Get("pmFromFile", plugintypes.OperatorOptions{Arguments: "phrases.data", Path: []string{"d"}, Root: fsys, Memoizer: r.mz()})
 	if err != nil {
 		r.fail("c15-pmf-ctor", "newPMFromFile returned an error: "+err.Error(), cj)
 		return
@@ -270,7 +291,7 @@ func (r *runner) runPmd(phrases []string, value string, capture bool) {
 		ph[i] = hx(p)
 	}
 	cj := &caseJSON{Kind: "pmd", Phrases: ph, ValueHex: hx(value), Capture: capture}
-	op, err := operators.Get("pmFromDataset", plugintypes.OperatorOptions{Arguments: "ds", Datasets: map[string][]string{"ds": phrases}})
+	op, err := operators.Get("pmFromDataset", plugintypes.OperatorOptions{Arguments: "ds", Datasets: map[string][]string{"ds": phrases}, Memoizer: r.mz()})
 	if err != nil {
 		r.fail("c15-pmd-ctor", "newPMFromDataset returned an error: "+err.Error(), cj)
 		return
@@ -280,7 +301,7 @@ func (r *runner) runPmd(phrases []string, value string, capture bool) {
 
 func (r *runner) runSimple(kind, opName, arg, value string) {
 	cj := &caseJSON{Kind: kind, ArgHex: hx(arg), ValueHex: hx(value)}
-	op, err := operators.Get(opName, plugintypes.OperatorOptions{Arguments: arg})
+	op, err := operators.Get(opName, plugintypes.OperatorOptions{Arguments: arg, Memoizer: r.mz()})
 	if err != nil {
 		cj.Res = "error"
 	} else {
@@ -350,7 +371,7 @@ func rxResult(pat, value string) (res bool, ok bool) {
 func (r *runner) runRx(pat, value string, capture bool) {
 	cj := &caseJSON{Kind: "rx", ArgHex: hx(pat), ValueHex: hx(value), Capture: capture, Prefilter: r.pf}
 	idx, matched, ok := rxOracle(pat, value)
-	op, err := operators.Get("rx", plugintypes.OperatorOptions{Arguments: pat, RxPreFilterEnabled: r.pf})
+	op, err := operators.Get("rx", plugintypes.OperatorOptions{Arguments: pat, RxPreFilterEnabled: r.pf, Memoizer: r.mz()})
 	if !ok || err != nil {
 		if ok != (err == nil) {
 			r.fail("c15-rx-compile", "@rx and regexp.Compile((?sm)pattern) disagree on validity", cj)
